@@ -187,8 +187,8 @@ var cidInit = Dict{
 			if !ok {
 				return intp.e(eTypecheck, "endcodespacerange: expected string, got %T", intp.Stack[base+2*i+1])
 			}
-			if len(lo) != len(hi) {
-				return intp.e(eRangecheck, "endcodespacerange: expected strings of equal length, got %d and %d", len(lo), len(hi))
+			if len(lo) != len(hi) || bytes.Compare(lo, hi) > 0 {
+				return intp.e(eRangecheck, "endcodespacerange: invalid range <%x> <%x>", lo, hi)
 			}
 			intp.cmapCodeSpaceRanges[i] = CodeSpaceRange{lo, hi}
 		}
